@@ -416,6 +416,22 @@ def cases(rng, tier):
         f = zmul(rng.choice(SD4), rng.choice(TABLE[:23]))
         if rng.random() < 0.4: f = zmul(f, rng.choice(SD4))
         out.append(lib_case(rng, zscal(rng.choice([1, -1, 2, -9]), f), 'swinnerton-dyer-product'))
+    # ---- two or more irreducible factors that EACH split modulo the chosen prime: a factor is then found as a subset of
+    # size >= 2 while other lifted factors are still pending (the bookkeeping of the removal matters only here)
+    import itertools
+    pairs = list(itertools.combinations(SD4, 2))
+    if not th: pairs = pairs[:6]
+    for a_, b_ in pairs:
+        out.append(lib_case(rng, zmul(a_, b_), 'two-splitting-factors'))
+    for f in ([-6, 0, -13, 0, -1, 0, 2],                                   # (x^2+2)(2x^2+1)(x^2-3)
+              zprod([[1, 0, 1], [1, 0, 0, 0, 1], [1, 0, -1, 0, 1]]),      # (x^2+1)(x^4+1)(x^4-x^2+1)
+              zscal(-3, zprod([[-3, 0, 1], [-3, 0, 1], [-1, 1, 1], [1, 0, -1, 0, 1]])),
+              zprod([[1, 0, -10, 0, 1], [1, 1, 1], [1, 0, 0, 0, 1]]),
+              zprod([[2, 0, 1], [-2, 0, 1], [3, 0, 1], [-3, 0, 1]])):
+        out.append(lib_case(rng, f, 'two-splitting-factors'))
+    if th:
+        for a_ in SD4[:3]:
+            out.append(lib_case(rng, zmul(a_, SD8[1]), 'two-splitting-factors'))
     # ---- many modular factors: products of distinct linear factors (subset search restarts)
     for k in ([3, 5, 8, 12, 16, 20, 25] if th else [3, 5, 8, 11]):
         f = zprod([[-r, 1] for r in range(1, k + 1)])
